@@ -1463,6 +1463,12 @@ class Mask(Elemwise):
     _defaults = {"other": np.nan}
     operation = M.mask
 
+    def _simplify_up(self, parent, dependents):
+        if any(isinstance(op, Expr) and op.ndim == 2 for op in self.operands[1:]):
+            # A frame-like cond / other would have to be projected as well
+            return
+        return super()._simplify_up(parent, dependents)
+
 
 class Round(Elemwise):
     _projection_passthrough = True
@@ -1475,6 +1481,12 @@ class Where(Elemwise):
     _parameters = ["frame", "cond", "other"]
     _defaults = {"other": np.nan}
     operation = M.where
+
+    def _simplify_up(self, parent, dependents):
+        if any(isinstance(op, Expr) and op.ndim == 2 for op in self.operands[1:]):
+            # A frame-like cond / other would have to be projected as well
+            return
+        return super()._simplify_up(parent, dependents)
 
 
 def _check_divisions(df, i, division_min, division_max, last):
